@@ -184,7 +184,89 @@ Theorem stalled_stream_collected :
 Proof. exact stalled_stream_collected_gen. Qed.
 Print Assumptions stalled_stream_collected.
 
-(* PARTIAL (split_covers_exactly). Proved for every file, chunk size cs > 0 and file size
+(* split_covers_exactly, FULL statement, both sender modes, every chunk size cs > 0 / block
+   size bs > 0 and every file size in N.
+
+   File mode (splitBySnapshotFile/getChunks). getChunks panics exactly when the main file
+   or an external file has size 0 (panic("empty file")). Otherwise the chunk list is the
+   main file's segment followed by one segment per external file, in order; within each
+   segment ([seg_ok]) the ranges (FileChunkId * cs, ChunkSize) that loadChunkData reads
+   partition [0, file size) in order ([covers]: consecutive, non-empty, ending exactly at
+   the size - for a size that is a multiple of cs the last chunk is a full cs, for a size
+   below cs there is one chunk), FileChunkId = 0..k-1 and FileChunkCount = k =
+   ceil(size/cs), every chunk has 1..cs bytes and carries the file's path, size and file
+   info; over the whole list ChunkId = 0..n-1 ([mids_from]) and ChunkCount = n.
+
+   Stream mode (rsm.BlockWriter under rsm.ChunkWriter, model [block_ranges]/[stream_chunks]).
+   The blocks of a payload of n bytes partition [0, n) in order: none for n = 0, all of size
+   bs for n a multiple of bs, otherwise the last has n mod bs bytes; there are ceil(n/bs) of
+   them. For any list of chunk payloads the emitted sequence has ChunkId = 0,1,2,.., all
+   chunks of one sender/snapshot, only the final (empty, LastChunkCount) chunk is a last
+   chunk, and what it writes is one file: the concatenation of the payloads. *)
+Theorem split_covers_exactly :
+  (forall cs, 0 < cs -> forall msg,
+      (get_chunks cs msg = None <-> m_fsize msg = 0 \/ exists f, In f (m_files msg) /\ sf_size f = 0) /\
+      (forall l, get_chunks cs msg = Some l ->
+         exists seg0 segs,
+           l = seg0 ++ concat segs /\
+           seg_ok cs (m_path msg) (m_fsize msg) None (map (set_count 0) seg0) /\
+           Forall2 (fun seg f => seg_ok cs (sf_path f) (sf_size f) (Some f) (map (set_count 0) seg)) segs (m_files msg) /\
+           mids_from 0 l /\ Forall (fun m => c_count m = nlen l) l)) /\
+  (forall bs, 0 < bs -> forall n,
+      covers 0 (block_ranges bs n) n /\
+      nlen (block_ranges bs n) = block_count bs n /\
+      Forall (fun r => 1 <= snd r <= bs) (block_ranges bs n) /\
+      (n mod bs = 0 -> Forall (fun r => snd r = bs) (block_ranges bs n))) /\
+  (forall D dempty dapp dlen msg did (datas : list D),
+      ids_from D 0 (stream_chunks D dempty dlen msg did datas) /\
+      same_stream D did (stream_meta msg did 0 0 0) (stream_chunks D dempty dlen msg did datas) /\
+      last_only D (stream_chunks D dempty dlen msg did datas) /\
+      map snd (stream_chunks D dempty dlen msg did datas) = datas ++ [dempty] /\
+      (forall d0 r, datas = d0 :: r -> bad_name (path_base (m_path msg)) = false ->
+         replay D dapp [] (stream_chunks D dempty dlen msg did datas) =
+         Some [(path_base (m_path msg), fold_left dapp (r ++ [dempty]) d0)])).
+Proof. exact split_covers_exactly_full. Qed.
+Print Assumptions split_covers_exactly.
+
+(* sender_chunks_replay_to_source: "the finalised bytes are exactly the sender's". For any
+   data type with the slicing law of byte strings (dsub_app; it holds for byte lists:
+   bytes_slicing_law), whatever the file mode sender emits for a message whose files exist
+   with at least the announced sizes and have plain base names replays at the receiver
+   ([replay], the function in_order_delivery_reassembles / finalize_iff_complete_valid_
+   sequence use for the final directory) to exactly [dsub f 0 size] of each source file f
+   under its base name - the whole file when the announced size is its length. *)
+Theorem sender_chunks_replay_to_source :
+  forall D dapp dlen dsub,
+    (forall f a n m, a + n + m <= dlen f -> dapp (dsub f a n) (dsub f (a + n) m) = dsub f a (n + m)) ->
+    forall cs, 0 < cs ->
+    forall src did msg chunks fm (fs : list D),
+      send_snapshot D dlen dsub cs did src msg = Some chunks ->
+      alookup bytes_eqb (m_path msg) src = Some fm -> m_fsize msg <= dlen fm ->
+      bad_name (path_base (m_path msg)) = false ->
+      Forall2 (fun sf f => alookup bytes_eqb (sf_path sf) src = Some f /\ 0 < sf_size sf /\ sf_size sf <= dlen f /\
+                           bad_name (path_base (sf_path sf)) = false) (m_files msg) fs ->
+      replay D dapp [] chunks =
+      Some (written D dsub (combine (m_files msg) fs) [(path_base (m_path msg), dsub fm 0 (m_fsize msg))]).
+Proof. exact sender_replay_proved. Qed.
+Print Assumptions sender_chunks_replay_to_source.
+
+Theorem bytes_slicing_law :
+  (forall (f : bytes) a n m, a + n + m <= nlen f -> bytes_sub f a n ++ bytes_sub f (a + n) m = bytes_sub f a (n + m)) /\
+  (forall f : bytes, bytes_sub f 0 (nlen f) = f).
+Proof. exact (conj bytes_sub_app bytes_sub_all). Qed.
+Print Assumptions bytes_slicing_law.
+
+(* non-vacuity: a 9 byte main file and a 4 byte external file, chunk size 4, on byte lists *)
+Example sender_replay_witness :
+  let src := [([47; 115], [1; 2; 3; 4; 5; 6; 7; 8; 9]); ([47; 120], [10; 11; 12; 13])] in
+  let msg := mkSSMsg 1 2 3 100 5 0 [47; 115] 9 [mkSFile [47; 120] 4 1 []] false in
+  option_map (replay bytes (@app N) []) (send_snapshot bytes (@nlen N) bytes_sub 4 7 src msg)
+  = Some (Some [([115], [1; 2; 3; 4; 5; 6; 7; 8; 9]); ([120], [10; 11; 12; 13])]) /\
+  map (fun n => block_ranges 4 n) [0; 3; 4; 8; 9]
+  = [[]; [(0, 3)]; [(0, 4)]; [(0, 4); (4, 4)]; [(0, 4); (4, 4); (8, 1)]].
+Proof. vm_compute. split; reflexivity. Qed.
+
+(* SUPERSEDED by split_covers_exactly above (kept). Proved for every file, chunk size cs > 0 and file size
    > 0: the chunk sizes of splitBySnapshotFile add up to the file size, each chunk has
    1..cs bytes (all but the last exactly cs, so chunk i starts at offset i*cs, where
    loadChunkData reads it), file chunk ids are 0..cc-1, chunk ids continue from the start
